@@ -258,7 +258,11 @@ static void run(const Case &c, Ctx &ctx) {
                     // same letters, different case: no promise either way
                     if (rc == AWS_OP_SUCCESS) {
                         ctx.tag("case_variant_key_accepted");
-                        stop = true; // lookups are ambiguous from here on
+                        // whichever way letter case is treated, "an added member can be found [and] read back" by its key
+                        const struct aws_json_value *r = lib_get(obj, k);
+                        PBT_CHECK(r == nv, "the member just added under \"%s\" is not the one its key finds (%s): adding and looking up treat letter case differently",
+                                  show(k).c_str(), r ? "another member is returned" : "nothing is returned");
+                        stop = true; // other lookups are ambiguous from here on
                         continue;
                     }
                     aws_json_value_destroy(nv);
